@@ -16,8 +16,11 @@ def instances(tier):
         L.append(Inst("codec-" + f, "C10/fmt.c", {"FMT": "PIXMAN_" + f}, link=[], unwind=64, checks=ck,
                       desc={"what": "fetch_pixel/fetch_scanline/store_scanline of this format on symbolic memory: bit-replicated widening, MSB narrowing, neighbour and padding bits untouched, read-back identity"}))
     for f in (RGB if tier == "thorough" else QUICK_ACC):
-        L.append(Inst("codec-accessors-" + f, "C10/fmt.c", {"FMT": "PIXMAN_" + f, "ACCESSORS": None}, link=["pixman-access-accessors.c"], unwind=64, checks=ck,
-                      desc={"what": "same obligations with read/write callbacks (PIXMAN_FB_ACCESSORS recompilation): behaves like direct addressing"}))
+        for acc, an in ((3, "rw"), (1, "r")):
+          if acc != 3 and tier == "quick" and f not in ("r5g6b5", "a4"):
+              continue
+          L.append(Inst("codec-accessors-%s-%s" % (an, f), "C10/fmt.c", {"FMT": "PIXMAN_" + f, "ACCESSORS": acc}, link=["pixman-access-accessors.c"], unwind=64, checks=ck,
+                        desc={"what": "same obligations with read and/or write callbacks (PIXMAN_FB_ACCESSORS recompilation): goes through the callbacks and behaves like direct addressing"}))
     for f, nb in (QUICK_FLT if tier == "quick" else [(f, 8) for f in RGB] + QUICK_FLT):
         L.append(Inst("float-%s-n%d" % (f, nb), "C10/flt.c", {"FMT": "PIXMAN_" + f, "NBITS": nb}, link=[], unwind=6, timeout=600,
                       desc={"what": "pixman_expand_to_float: 0 -> 0.0, max -> 1.0, strictly monotone, absent alpha 1.0 / colour 0.0; contract(expand) identity; float_to_unorm clamps and is monotone"}))
